@@ -133,8 +133,11 @@ func genInterleaveCase(t *rapid.T) Case {
 	c.SignAlg = rapid.SampledFrom([]string{"RS256", "RS256", "ES256", "EdDSA"}).Draw(t, "signalg")
 	pk := genClients(t, &c)
 	n := len(c.Clients)
+	recent := -1
 	flow := func() {
-		c.Ops = append(c.Ops, genAuthorize(t, n, pk), Op{Kind: "login", User: rapid.IntRange(0, 2).Draw(t, "user")}, Op{Kind: "callback"})
+		au := genAuthorize(t, n, pk)
+		recent = au.Client
+		c.Ops = append(c.Ops, au, Op{Kind: "login", User: rapid.IntRange(0, 2).Draw(t, "user")}, Op{Kind: "callback"})
 	}
 	rounds := rapid.SampledFrom([]int{1, 1, 2}).Draw(t, "rounds")
 	for r := 0; r < rounds; r++ {
@@ -144,6 +147,9 @@ func genInterleaveCase(t *rapid.T) Case {
 		}
 		if rapid.IntRange(0, 5).Draw(t, "second-code") == 0 {
 			c.Ops = append(c.Ops, Op{Kind: "callback"}) // a second code of the same request
+		}
+		if rapid.IntRange(0, 5).Draw(t, "reg-before-race") == 0 {
+			c.Ops = append(c.Ops, genReg(t, n, recent)) // the registration changes while the codes raced for are outstanding
 		}
 		c.Ops = append(c.Ops, genRace(t, n, pk))
 		after := rapid.IntRange(0, 2).Draw(t, "after")
